@@ -93,9 +93,14 @@ def S2_N11_commit(ctx):
                 n_expected[present] += 1
             both_max = holds_rel(p, len(p.events), lambda op, l, r: op == 'Eq' and is_field(l, 'TxEnv.nonce') and r[0] == 'const' and 'MAX' in r[1]) and \
                 holds_rel(p, len(p.events), lambda op, l, r: op == 'Eq' and expected_ok(l) and r[0] == 'const' and 'MAX' in r[1])
+            # the overflow case must have been ruled OUT on a committing path (not merely "not seen"): one of the two
+            # MAX tests was decided false. An absent account has the literal expected nonce 0, which cannot be MAX.
+            max_excluded = holds_rel(p, len(p.events), lambda op, l, r: op == 'Ne' and (is_field(l, 'TxEnv.nonce') or expected_ok(l)) and r[0] == 'const' and 'MAX' in r[1])
             if kind == 'Committed':
                 if both_max or not any(m == 'Eq' for m, _, _ in rels):
                     bad.append((p, 'committed without tx.nonce == committed nonce (or with the MAX/MAX overflow case)'))
+                elif present is True and not max_excluded:
+                    bad.append((p, 'committed although tx.nonce = committed nonce = u64::MAX was never ruled out (revm saturates the increment instead of rejecting)'))
                 if commits and rels and idx_of(p, commits[0]) < max(i_a for _, i_a, _ in rels):
                     bad.append((p, 'state.commit before the nonce decision'))
             elif kind == 'NeedsSequentialFallback':
